@@ -455,7 +455,8 @@ theorem C08_mirror_array (S P : Spec) (ns : List ℕ) (hf : S.folded = false) (h
     For an unfolded spectrum S whose projection to `ns` is P: projecting the folded spectrum `S.fold()` — the code path
     fold(project(unfold(·))) of `C08_folded` — is accepted and returns *the same spectrum* as folding the projection
     (`S.fold().project(ns) = S.project(ns).fold()`, data, mask, shape and flag), and the mirrored spectrum folds to the
-    same result after projection.  Uses `C08_mirror` in array form and C09's fold algebra (Lemmas/Fold.lean). -/
+    same result after projection.  Uses `C08_mirror` in array form and C09's fold algebra (part A of Lemmas/Fold.lean,
+    restated in Lemmas/FoldAlg.lean for the regenerated programs of Generated/ProjFold.lean). -/
 theorem C08_fold_commute (S P : Spec) (ns : List ℕ) (hf : S.folded = false) (hpos : ∀ s ∈ S.shape, 0 < s)
     (h : S.project ns = .ok P) :
     S.fold.project ns = .ok P.fold ∧ ∃ Q, S.mirror.project ns = .ok Q ∧ Q.fold = P.fold := by
@@ -476,21 +477,33 @@ theorem C08_fold_commute (S P : Spec) (ns : List ℕ) (hf : S.folded = false) (h
     · rw [hP]; exact fold_project_mirror ns S.sampleSizes hR hL
 
 /-- **`fold` / `unfold` of the C08 model are the programs regenerated from the source** (`Spectrum.fold`,
-    `Spectrum.unfold` as translated by tools/gen_Fold.py into Generated/Fold.lean for C09), instantiated at multi-indices
+    `Spectrum.unfold` as translated by C09's tools/gen_Fold.py; tools/gen_ProjFold.py puts C08's copy of these two programs
+    into Generated/ProjFold.lean on every run), instantiated at multi-indices
     with mirror = reversal of every axis and total = sum of the index: every entry of the box, data and mask
     (corner masking of the constructor included). -/
 theorem C08_fold_generated (S : Spec) (idx : List ℕ) (h : InBox S.shape idx) :
     S.fold.getD idx
-      = Gen.Fold.fold_outData (Spec.revIdx S.shape) Spec.totalPerEntry (Spec.totalSamples S.shape) S.getD S.getM idx ∧
+      = Gen.ProjFold.fold_outData (Spec.revIdx S.shape) Spec.totalPerEntry (Spec.totalSamples S.shape) S.getD S.getM idx ∧
     S.fold.getM idx
-      = (Gen.Fold.fold_outMask (Spec.revIdx S.shape) Spec.totalPerEntry (Spec.totalSamples S.shape) S.getD S.getM idx
-          || (Gen.Fold.fold_maskCorners && Spec.isCorner S.shape idx)) ∧
+      = (Gen.ProjFold.fold_outMask (Spec.revIdx S.shape) Spec.totalPerEntry (Spec.totalSamples S.shape) S.getD S.getM idx
+          || (Gen.ProjFold.fold_maskCorners && Spec.isCorner S.shape idx)) ∧
     S.unfold.getD idx
-      = Gen.Fold.unfold_outData (Spec.revIdx S.shape) Spec.totalPerEntry (Spec.totalSamples S.shape) S.getD S.getM idx ∧
+      = Gen.ProjFold.unfold_outData (Spec.revIdx S.shape) Spec.totalPerEntry (Spec.totalSamples S.shape) S.getD S.getM idx ∧
     S.unfold.getM idx
-      = (Gen.Fold.unfold_outMask (Spec.revIdx S.shape) Spec.totalPerEntry (Spec.totalSamples S.shape) S.getD S.getM idx
-          || (Gen.Fold.unfold_maskCorners && Spec.isCorner S.shape idx)) :=
+      = (Gen.ProjFold.unfold_outMask (Spec.revIdx S.shape) Spec.totalPerEntry (Spec.totalSamples S.shape) S.getD S.getM idx
+          || (Gen.ProjFold.unfold_maskCorners && Spec.isCorner S.shape idx)) :=
   ⟨fold_getD_gen S idx h, fold_getM_gen S idx h, unfold_getD_gen S idx h, unfold_getM_gen S idx h⟩
+
+/-- wiring of the fold layer read off the source by C09's translator and used above: `reverse_array` reverses every axis,
+    `_total_per_entry` is the sum of the multi-index, both constructors mask the corners, `fold` returns a folded and
+    `unfold` an unfolded spectrum; `fold` raises on a folded and `unfold` on an unfolded spectrum (so `project` can only
+    reach them in the order unfold → project → fold). -/
+theorem C08_fold_wiring :
+    Gen.ProjFold.reverseArrayAllAxes = true ∧ Gen.ProjFold.totalPerEntryIsIndexSum = true
+    ∧ Gen.ProjFold.fold_maskCorners = true ∧ Gen.ProjFold.unfold_maskCorners = true
+    ∧ Gen.ProjFold.fold_outFolded = true ∧ Gen.ProjFold.unfold_outFolded = false
+    ∧ (∀ b, Gen.ProjFold.fold_raises b = b) ∧ (∀ b, Gen.ProjFold.unfold_raises b = !b) := by
+  refine ⟨by decide, by decide, by decide, by decide, by decide, by decide, fun b => rfl, fun b => rfl⟩
 
 end arrays
 
